@@ -39,7 +39,7 @@ inductive Phase where
 inductive Ev where
   | start | head (r : Nat) | shutdown (r : Nat) | read (r : Nat) | readerr (r : Nat)
   | unbind (r : Nat) | inline (r : Nat) | inlinedone (r : Nat) | spawn (r : Nat)
-  | reqStart (r : Nat) | reqDone (r : Nat) | init
+  | reqStart (r : Nat) | reqDone (r : Nat) | reqRecovered (r : Nat) | init
   | recovered | teardown | wgdone | netclose | closed | onclose | oncloseend | gone
   deriving Repr, DecidableEq
 
@@ -85,6 +85,9 @@ def step (F : Facts) (s : St) (e : Ev) : Option St :=
       if s.spawned.contains r ∧ !s.running.contains r ∧ !s.finished.contains r then some { s' with running := s.running ++ [r] } else none
   | .reqDone r, _ =>
       if s.running.contains r then some { s' with running := s.running.erase r, finished := s.finished ++ [r] } else none
+  | .reqRecovered r, _ =>
+      -- a handler panic caught on the request's own goroutine: that goroutine still runs its deferred Done
+      if s.running.contains r then some s' else none
   | .recovered, p =>
       -- a panic on the connection goroutine, caught by its deferred recover: the loop is over
       -- (also while the inline unbind handler runs: the `unbind` event precedes the handler call)
